@@ -29,7 +29,7 @@ def gen_behaviours(cfg, name):
     return path, res
 
 
-def replay(scen, workdir, tag, frag=0, shards=8, scale=1, delay_ms=0, every=1, only=""):
+def replay(scen, workdir, tag, frag=0, shards=8, scale=1, delay_ms=0, every=1, only="", dialect=0):
     traces, procs = [], []
     n = sum(1 for _ in open(scen)) // every
     shards = max(1, min(shards, n // 50 if n > 50 else n))
@@ -37,7 +37,7 @@ def replay(scen, workdir, tag, frag=0, shards=8, scale=1, delay_ms=0, every=1, o
         tr = os.path.join(workdir, "%s_%d.ndjson" % (tag, i))
         traces.append(tr)
         cmd = ["timeout", "900", VH, "reader-l1", "--scen", scen, "--out", tr, "--shards", str(shards), "--shard", str(i), "--frag", str(frag),
-               "--scale", str(scale), "--delay-ms", str(delay_ms), "--every", str(every)] + (["--only", only] if only else [])
+               "--scale", str(scale), "--delay-ms", str(delay_ms), "--every", str(every)] + (["--only", only] if only else []) + (["--dialect", str(dialect)] if dialect else [])
         procs.append(subprocess.Popen(cmd, stdout=subprocess.PIPE, stderr=subprocess.PIPE, env=dict(os.environ, RUST_BACKTRACE="0")))
     runs = 0
     for p in procs:
@@ -91,6 +91,9 @@ def run_reader_check(prop, tier):
         p, _ = gen_behaviours("ReaderMC_subsets.cfg", "reader_subsets")
         sets.append(("subsets", p, 0))
         # the same chunk lists with a unit of 3 000 000 bytes: runs of adjacent chunks of 9 - 30 MB (beyond any 8 / 16 MiB staging on the way)
+        # the same against other wordings of a conforming server: Content-Range a-b/N with the usual extra headers in lower case; Content-Range a-b/* with chunked coding
+        sets.append(("subsets_dialect1", p, 0, {"dialect": 1}))
+        sets.append(("subsets_dialect2", p, 0, {"dialect": 2}))
         sets.append(("subsets_scale3000000", p, 0, {"scale": 3000000, "every": 3 if tier == "quick" else 1}))
         # ... and over a virtual archive with units of 250 MB (a run of more than 1 GiB) and, thorough, 900 MB (more than 4 GiB: 32-bit offsets / lengths)
         sets.append(("subsets_giant250MB", giant_subset(p, workdir, "giant250", 1 if tier == "quick" else 3), 0, {"scale": 250000000, "shards": 3}))
@@ -110,6 +113,9 @@ def run_reader_check(prop, tier):
         sets.append(("faults_giant250MB", giant_subset(p, workdir, "fgiant250", 1 if tier == "quick" else 3, need_fin=True), 0, {"scale": 250000000, "shards": 3}))
         if tier == "thorough":
             sets.append(("faults_giant900MB", giant_subset(p, workdir, "fgiant900", 2, need_fin=True), 0, {"scale": 900000000, "shards": 2}))
+        sets.append(("faults_dialect1", p, 0, {"dialect": 1, "every": 3 if tier == "quick" else 1}))
+        sets.append(("faults_dialect2", p, 0, {"dialect": 2, "every": 3 if tier == "quick" else 1}))
+        sets.append(("faults_dialect2_frag1", p, 1, {"dialect": 2, "every": 6 if tier == "quick" else 2}))
         sets.append(("faults_delay15ms", p, 0, {"delay_ms": 15, "every": 6 if tier == "quick" else 2}))
         if tier == "thorough":
             sets.append(("faults_frag2", p, 2))
@@ -120,6 +126,8 @@ def run_reader_check(prop, tier):
         sets.append(("readat_frag1", lp, 1, {"only": "read_at"}))
         sets.append(("readat_scale70000", lp, 0, {"only": "read_at", "scale": 70000}))
         sets.append(("readat_scale4096_frag3000", lp, 3000, {"only": "read_at", "scale": 4096}))
+        sets.append(("readat_dialect1", lp, 0, {"only": "read_at", "dialect": 1}))
+        sets.append(("readat_dialect2_frag1", lp, 1, {"only": "read_at", "dialect": 2}))
         sets.append(("readat_delay15ms", lp, 0, {"only": "read_at", "delay_ms": 15, "every": 3 if tier == "quick" else 1}))
     total = 0
     tv = {"events": 0, "scenarios_ok": 0, "verdicts": 0, "states": 0}
